@@ -20,12 +20,14 @@ CONFIGS = {
                          ("ControllerMC_crashfault.cfg", "edges"), ("ControllerMC_crash.cfg", "edges"),
                          ("ControllerMC_share_sim.cfg", "sim")]},
     "C02": {"quick": [("ControllerMC_req.cfg", "edges"), ("ControllerMC_dual.cfg", "edges"), ("ControllerMC_pinmove.cfg", "edges"),
-                      ("ControllerMC_dualreq.cfg", "edges"), ("ControllerMC_pin.cfg", "edges")],
+                      ("ControllerMC_dualreq.cfg", "edges"), ("ControllerMC_pin.cfg", "edges"), ("ControllerMC_selmove.cfg", "edges")],
             "thorough": [("ControllerMC_req.cfg", "edges"), ("ControllerMC_dual.cfg", "edges"), ("ControllerMC_pinmove.cfg", "edges"),
-                         ("ControllerMC_dualreq.cfg", "edges"), ("ControllerMC_pin.cfg", "edges"), ("ControllerMC_dual_sim.cfg", "sim")]},
+                         ("ControllerMC_dualreq.cfg", "edges"), ("ControllerMC_pin.cfg", "edges"), ("ControllerMC_selmove.cfg", "edges"),
+                         ("ControllerMC_dual_sim.cfg", "sim")]},
     "C03": {"quick": [("ControllerMC_stable.cfg", "edges"), ("ControllerMC_stable_il.cfg", "edges"), ("ControllerMC_stablefault.cfg", "edges"),
-                      ("ControllerMC_prefer.cfg", "edges"), ("ControllerMC_localshare.cfg", "edges")],
+                      ("ControllerMC_prefer.cfg", "edges"), ("ControllerMC_localshare.cfg", "edges"), ("ControllerMC_selmove.cfg", "edges")],
             "thorough": [("ControllerMC_stable.cfg", "edges"), ("ControllerMC_stable_il.cfg", "edges"), ("ControllerMC_stablefault.cfg", "edges"),
+                         ("ControllerMC_selmove.cfg", "edges"),
                          ("ControllerMC_crash3.cfg", "edges"), ("ControllerMC_prefer.cfg", "edges"), ("ControllerMC_share.cfg", "edges"),
                          ("ControllerMC_stable_sim.cfg", "sim")]},
     "C06": {"quick": [("ControllerMC_crash.cfg", "edges"), ("ControllerMC_crash3.cfg", "edges"), ("ControllerMC_fault.cfg", "edges"),
